@@ -1412,6 +1412,14 @@ func main() {
 	writeIfChanged(filepath.Join(*out, "GenReplySites.v"), w.Bytes())
 	fmt.Printf("go2v: GenReplySites.v %d reply-id site lists, %d not translated, %d rows in the table of id-writing sites\n", nri, nrs0, nrt)
 
+	// GenPoolReset.v (C03): every sync.Pool with the resets between two users of a pooled object (poolreset.go)
+	w.Reset()
+	fmt.Fprintf(&w, header, *repo)
+	fmt.Fprintf(&w, "From Verif Require Import Spec.PoolSpec.\n\n")
+	npl, npg, npp, npf := poolResetSafe(&w, *repo, all)
+	writeIfChanged(filepath.Join(*out, "GenPoolReset.v"), w.Bytes())
+	fmt.Printf("go2v: GenPoolReset.v %d pools, %d Get sites, %d Put sites, %d pooled fields\n", npl, npg, npp, npf)
+
 	// GenTypedBuf.v, GenMessages.v ...: byte-buffer methods and message codecs (methods.go)
 	emitMethodFiles(all, *repo, *out)
 }
